@@ -5,7 +5,7 @@
 //! recovers exactly N documents equal to the single-document values.
 
 use crate::engines::output::{add_tail, frame_case, gen_call, CallSpec};
-use crate::gen::{gen_doc, read_docs, to_yaml, GenOpts, Spelling, Val};
+use crate::gen::{gen_doc, read_docs, GenOpts, Spelling, Val};
 use crate::out::Out;
 use crate::util::{hex, Rng};
 use crate::xtapi::{random_supply, translate, Fmt, Supply, STREAM_FMTS};
@@ -138,7 +138,7 @@ fn indented_yaml(out: &mut Out, rng: &mut Rng, thorough: bool) {
 				let opts = GenOpts::cdm().for_formats(&[Fmt::Yaml, Fmt::Json]);
 				let v = gen_doc(rng, &opts);
 				let sp = Spelling { level: 1 + rng.below(2) as u8, salt: rng.next() };
-				match to_yaml(&v, &sp) {
+				match crate::gen::spell_checked(Fmt::Yaml, &v, &sp).and_then(|b| String::from_utf8(b).ok()) {
 					Some(t) => t,
 					None => continue,
 				}
@@ -147,7 +147,7 @@ fn indented_yaml(out: &mut Out, rng: &mut Rng, thorough: bool) {
 				uniform_k = rng.range(1, 4) as usize;
 			}
 			if d > 0 {
-				stream.push_str(*rng.pick(&["...\n", "---\n", "...\n# c\n", "...\n...\n"]));
+				stream.push_str(*rng.pick(&["---\n", "...\n---\n", "--- # c\n", "...\n# c\n---\n"]));
 			} else if rng.chance(1, 4) {
 				stream.push_str(*rng.pick(&["---\n", "# lead\n", "\n"]));
 			}
